@@ -77,3 +77,9 @@ chk('C09', 'exploration',
     'Four closed curves x every leaf-set-distinct mesh state of the BFS graph (depth 1 quick / 2 thorough) x every element x 8 residuals (polynomial in t, x_hat; exponential/trigonometric in the embedded coordinates) x orders 1..19: every patch contribution returned by sobolev_space / sobolev_time is compared with an independent integral on the geometric union patch (1e-8 inside the exactness range on straight pieces, 1e-4 at order 17 otherwise, seam and corner patches included), the patch set with the geometric neighbour set, weighted L2 with exact integrals; estimate_sobolev shortcut == direct sums; quarter-turn symmetry of squares and circle permutes the indicators.',
     'Trusted: mc/oracle_slobo.py (self-tested against exact rational closed forms on every run). x_hat-polynomial residuals are not used on seam patches (discontinuous there). Pool path: C17.',
     'exhaustive enumeration of BFS mesh states x finite residual/order alphabets against a reference model', 'DESIGN.md 4/C09', 'E1-mesh-explorer')
+ENGINES += [{'name': 'driver', 'path': 'mc/driver.py', 'serves_properties': ['C03'],
+             'kind_free_text': 'executes the set-up/solve/residual statements of example.py extracted from its AST in a prepared namespace'}]
+chk('C03', 'exploration',
+    'All 12 problem x domain combinations of the driver x both switch values x every leaf-set-distinct mesh state of the BFS graph from the driver\'s initial mesh (depth 0/1 quick, 1/2 thorough) x every leaf: matrix, load vector, solve and residual are produced by the driver\'s own statements (executed from example.py\'s AST), and int_E r, int_E |r| by an independent graded tensor rule resolving every mesh line; criterion |int_E r| <= 5e-5 int_E |r| + 1e-12 as stated.',
+    'Trusted: the graded rule (12 levels in time, 4 in space; converged per DESIGN measurements); process pool replaced by a serial stand-in (schedules are C17).',
+    'exhaustive enumeration of BFS mesh states x problem configurations with an independent quadrature oracle', 'DESIGN.md 4/C03', 'driver')
